@@ -80,6 +80,7 @@ OPS = [
     ("aig",           10, 10),   # Ite -> 8 fresh and/not nodes, each type-checked once
     ("dagprint",       6,  0),   # get_logic (3) + typeso + fvo + printer
     ("reparse",        3,  3),   # second environment: every node created and type-checked once
+    ("reparse-interactive", 3, 3),   # the parser flavour SmtLibSolver keeps alive (reads the stream lazily)
 ]
 OPS_C = {o[0]: o[1] for o in OPS}
 OPS_R = {o[0]: o[2] for o in OPS}
@@ -361,10 +362,10 @@ def run_op(name, b):
         smtlibscript_from_formula(F).serialize(buf, daggify=True)
         b.text = buf.getvalue()
         return len(b.text)
-    if name == "reparse":
+    if name in ("reparse", "reparse-interactive"):
         from pysmt.smtlib.parser import SmtLibParser
         env2 = Environment()
-        script = SmtLibParser(env2).get_script(io.StringIO(b.text))
+        script = SmtLibParser(env2, interactive=(name == "reparse-interactive")).get_script(io.StringIO(b.text))
         g = script.get_last_formula(env2.formula_manager)
         b.parsed_nodes = dag_nodes(g)
         return g
@@ -480,7 +481,7 @@ def case_ops(opname, family, n, ops, res, part, profile, deep):
         # ---- operations
         dirty = False
         for op in ops:
-            if op == "reparse" and not getattr(b, "text", None):
+            if op.startswith("reparse") and not getattr(b, "text", None):
                 res.outcome("reparse:skipped-no-text")
                 continue
             if dirty:
@@ -531,7 +532,7 @@ def case_ops(opname, family, n, ops, res, part, profile, deep):
                     % (cnt["create"], N, OPS_R[op], K))
             if op == "dagprint" and len(b.text) > TEXT_PER_NODE * N + 1000:
                 bad("lin-text", op, "%d characters of text for N=%d distinct nodes" % (len(b.text), N))
-            if op == "reparse":
+            if op.startswith("reparse"):
                 if cnt["atoms"] > 6 * N + K or cnt["getexpr"] > 2 * N + K:
                     bad("lin-parse", op, "%d atoms / %d get_expression calls for N=%d" % (cnt["atoms"], cnt["getexpr"], N))
                 if b.parsed_nodes < n:
@@ -690,8 +691,8 @@ def replay(rec):
     res = Result()
     opname, family, n = c["operator"], c["family"], c["n"]
     ops = ALL_OPS if c.get("op") in (None, "construct") else [c["op"]]
-    if c.get("op") == "reparse":
-        ops = ["dagprint", "reparse"]
+    if str(c.get("op")).startswith("reparse"):
+        ops = ["dagprint", c.get("op")]
     if c.get("double_from"):
         per = {m: case_ops(opname, family, m, ops, res, "replay", True, False) for m in (c["double_from"], n)}
         check_doubling(opname, family, per, res, "replay")
